@@ -1836,3 +1836,11 @@ def run(status, changed, fns):
     except Exception as ex:      # never fatal for the functions above; recorded as a refusal
         status["failed"]["poly"] = f"internal: {type(ex).__name__}: {ex}"
     # ---- END BT6 hook
+    # ---- BEGIN BT7 hook: MMR proof machinery (membership / successor proofs, accumulator methods) with opaque digests
+    # (tools/rs2lean_mmr.py -> TF/Gen/MmrProofLoops.lean); restores everything it patches
+    try:
+        import rs2lean_mmr
+        rs2lean_mmr.run(status, changed, fns, read_src)
+    except Exception as ex:      # never fatal for the functions above; recorded as a refusal
+        status["failed"]["mmr"] = f"internal: {type(ex).__name__}: {ex}"
+    # ---- END BT7 hook
